@@ -59,7 +59,12 @@ class LtlPastifier(LtlAstVisitor):
         out = LtlAstVisitor.visit(self, node, *args, **kwargs)
         d = self.ast.phi_name_to_node_dict
         keys = [k for k, v in d.items() if v == node]
-        self.ast.phi_name_to_node_dict.update({key: out for key in keys})
+        named = out
+        if isinstance(node, Variable):
+            # the name of a delayed input keeps denoting the input, not its delayed copy
+            while isinstance(named, Previous):
+                named = named.children[0]
+        self.ast.phi_name_to_node_dict.update({key: named for key in keys})
         return out
 
     def visitConstant(self, node, *args, **kwargs):
